@@ -109,6 +109,8 @@ def plan_for(pid, tier):
     if pid == "C11":
         common["models"] = [("Caches", "Caches_mutex.cfg", "NoRace", ["Caches_rlock-write.cfg"]),
                             ("Caches", "Caches_rw-double-checked.cfg", "NoRace", [])]
+    if pid == "C05":
+        common["models"] = [("MergeStored", "MergeStored.cfg", "NamesKept", ["MergeStoredMut_lenEq.cfg", "MergeStoredMut_liveOnly.cfg"])]
     if pid == "C06":
         common["models"] = [("MergeImpl", "MergeImplQ.cfg" if q else "MergeImpl.cfg", "MergeIsRebuild", ["MergeImplMut_dropsI.cfg", "MergeImplMut_noEmptyFlush.cfg", "MergeImplMut_noNilCard.cfg"])] + \
                            ([] if q else [("MergeImpl", "MergeImpl3.cfg", "MergeIsRebuild", [])])
